@@ -17,6 +17,11 @@ import Gotree.Lemmas.C07Proof
 import Gotree.Lemmas.C07USplits
 import Gotree.Lemmas.C07Oracle
 import Gotree.Lemmas.C07Perm
+import Gotree.Lemmas.C07Root
+import Gotree.Lemmas.C07Single
+import Gotree.Lemmas.C07OracleG
+import Gotree.Lemmas.C07Deg
+import Gotree.Lemmas.C07Cmd
 
 namespace Gotree.C07
 open Gotree
@@ -137,6 +142,26 @@ theorem collapseDepth_defined (mn mx : Int) (rr rt : Bool) (t : T) :
     collapseDepth mn mx rr rt t = some (collapse (selDepth t.tipNames.length mn mx) rr rt t) := by
   unfold collapseDepth
   simp only [depth_never_errs t, Bool.false_eq_true, if_false]
+
+/-- The LIBRARY call `CollapseTopoDepth` reads the subtree sizes stored on the branches by the last
+    indexing (`collapseDepthStored`); when those are the sizes of the tree as it is now (unique branch
+    ids), it is `collapseDepth`, i.e. `ReinitIndexes(); CollapseTopoDepth(…)`, which is what the command
+    `collapse depth` runs (`cmdDepth`).  With stale sizes (an edit since the last indexing) it is not:
+    `stale_sizes_differ`. -/
+theorem collapseDepthStored_fresh (mn mx : Int) (rr rt : Bool) (t : T) (hid : uniqueIds t = true) :
+    collapseDepthStored (freshSizes t) mn mx rr rt t = collapseDepth mn mx rr rt t := by
+  unfold collapseDepthStored collapseDepth
+  have herr : t.splits.any (staleErr (freshSizes t)) = t.splits.any (depthErr t.tipNames.length) := by
+    rw [Bool.eq_iff_iff, List.any_eq_true, List.any_eq_true]
+    constructor <;> rintro ⟨s, hs, h⟩ <;> refine ⟨s, hs, ?_⟩
+    · simpa [staleErr, depthErr, storedSizes_fresh t hid s hs] using h
+    · simpa [staleErr, depthErr, storedSizes_fresh t hid s hs] using h
+  have hsel : t.splits.filter (selDepthStored (freshSizes t) mn mx) = t.splits.filter (selDepth t.tipNames.length mn mx) := by
+    apply List.filter_congr
+    intro s hs
+    unfold selDepthStored selDepth topoDepth
+    rw [storedSizes_fresh t hid s hs]
+  simp only [herr, collapse, hsel]
 
 /-- No tip is lost or invented, whatever the tree, the branches and the flags: the leaf names
     below the root are the same up to order, and the root node keeps its data. -/
@@ -293,6 +318,123 @@ theorem collapse_rooted {β : Type} (f : List String → β) (hf : PermInv f)
     have : s ∈ c2.splitsBelow := by cases c2; simpa [T.splits, T.splitsBelow] using hs
     simp [this]
 
+/- ## without `removeRoot`, on ANY tree (single-child inner nodes allowed)
+
+   `obsGRoot f t` is the observation list with one more Boolean per branch: PROTECTED = the branch hangs
+   off a root that has exactly two neighbours (a root branch of a rooted tree).  Since fix 82ce8b8 these
+   are the only branches `RemoveEdges` spares; before it, every branch next to a node with exactly two
+   neighbours was spared (`single_child_protected_pinned`). -/
+
+/-- `collapse_exact_general`: for EVERY tree whose root is not a tip — rooted or not, with or without
+    single-child inner nodes — with unique branch ids, without `removeRoot`: the branches after
+    `collapse` are those before minus the selected inner branches that are not root branches of a rooted
+    tree; tip branches and the two root branches always stay (a selected tip branch gets length 0 with
+    `removeTips`); every survivor keeps split, data, node data and its flag. -/
+theorem collapse_exact_general {β : Type} (f : List String → β) (hf : PermInv f)
+    (sel : SplitE → Bool) (selV : β × EdgeD × Bool → Bool) (rt : Bool) (t : T)
+    (hsel : ∀ s ∈ t.splits, sel s = selV (f s.below, s.e, s.tip))
+    (hid : uniqueIds t = true) (h1 : t.kids.length ≠ 1) :
+    (obsGRoot f (collapse sel false rt t)).Perm ((obsGRoot f t).filterMap (keepG selV rt)) := by
+  unfold collapse
+  refine (removeEdges_obsG f hf rt _ t h1).trans (List.Perm.of_eq ?_)
+  exact selG_congr f sel selV rt t hsel hid
+
+/-- the flag is what it says: forgetting it gives the plain observation list of `collapse_exact` -/
+theorem obsGRoot_forget {β : Type} (f : List String → β) (t : T) : (obsGRoot f t).map Prod.fst = obsT f t := by
+  rw [obsT_kids]; exact obsGL_fst f _ _
+
+/-- `collapse_exact` without the "no single-child node" hypothesis (possible since fix 82ce8b8): on
+    every tree whose root has neither one nor two neighbours, without `removeRoot`, exactly the
+    selected inner branches disappear. -/
+theorem collapse_exact_unrooted {β : Type} (f : List String → β) (hf : PermInv f)
+    (sel : SplitE → Bool) (selV : β × EdgeD × Bool → Bool) (rt : Bool) (t : T)
+    (hsel : ∀ s ∈ t.splits, sel s = selV (f s.below, s.e, s.tip))
+    (hid : uniqueIds t = true) (h1 : t.kids.length ≠ 1) (h2 : t.kids.length ≠ 2) :
+    (obsT f (collapse sel false rt t)).Perm ((obsT f t).filterMap (keepV selV rt)) := by
+  have hg := (collapse_exact_general f hf sel selV rt t hsel hid h1).map Prod.fst
+  rw [obsGRoot_forget] at hg
+  refine hg.trans (List.Perm.of_eq ?_)
+  have hflag : (t.kids.length == 2) = false := by simpa using h2
+  unfold obsGRoot
+  rw [hflag, obsGL_false, ← obsT_kids, List.filterMap_map, List.map_filterMap]
+  apply filterMap_congr'
+  intro x _
+  obtain ⟨b, e, tip, d⟩ := x
+  simp only [Function.comp, keepG, keepV]
+  cases selV (b, e, tip) <;> cases tip <;> simp
+
+/-- The last region: a root that is itself a tip (a single neighbour).  With or without `removeRoot`,
+    its branch is a terminal branch — never contracted, length 0 iff selected and `removeTips` — the root
+    stays a tip, and inside the subtree exactly the selected inner branches disappear.  Together with
+    `collapse_exact` (removeRoot) and `collapse_exact_general` (no removeRoot) this covers every tree. -/
+theorem collapse_tiproot {β : Type} (f : List String → β) (hf : PermInv f)
+    (sel : SplitE → Bool) (selV : β × EdgeD × Bool → Bool) (rr rt : Bool)
+    (d : NodeD) (p : Nat) (e : EdgeD) (c : T)
+    (hsel : ∀ s ∈ (T.node d p [(e, c)]).splits, sel s = selV (f s.below, s.e, s.tip))
+    (hid : uniqueIds (.node d p [(e, c)]) = true) :
+    ∃ c' : T,
+      collapse sel rr rt (.node d p [(e, c)]) =
+        .node d p [(if sel ⟨c.leaves, e, c.isLeaf⟩ = true ∧ rt = true then zeroLen e else e, c')]
+      ∧ (obsT f c').Perm ((obsT f c).filterMap (keepV selV rt))
+      ∧ c'.leaves.Perm c.leaves ∧ c'.isLeaf = c.isLeaf ∧ c'.d = c.d := by
+  let t : T := .node d p [(e, c)]
+  let ids := (t.splits.filter sel).map (·.e.id)
+  have hsp : t.splits = ⟨c.leaves, e, c.isLeaf⟩ :: (c.splitsBelow ++ []) := by simp [t, T.splits, splitsL]
+  have hnd : (t.splits.map (·.e.id)).Nodup := by simpa [uniqueIds] using hid
+  have hm : (⟨c.leaves, e, c.isLeaf⟩ : SplitE) ∈ t.splits := by rw [hsp]; simp
+  have hroot : e.id ∈ ids ↔ sel ⟨c.leaves, e, c.isLeaf⟩ = true := by
+    constructor
+    · intro hin
+      obtain ⟨s, hsf, hsid⟩ := List.mem_map.mp hin
+      have hsm := List.mem_filter.mp hsf
+      have : s = ⟨c.leaves, e, c.isLeaf⟩ := eq_of_nodup_map (·.e.id) t.splits hnd s hsm.1 _ hm hsid
+      rw [← this]; exact hsm.2
+    · intro hs
+      exact List.mem_map.mpr ⟨_, List.mem_filter.mpr ⟨hm, hs⟩, rfl⟩
+  refine ⟨belowAllR rr rt ids c, ?_, ?_, (belowAllR_leaves rr rt ids c).1, (belowAllR_leaves rr rt ids c).2.1,
+    (belowAllR_leaves rr rt ids c).2.2⟩
+  · show removeEdges rr rt ids t = _
+    rw [removeEdges_tiproot]
+    simp only [hroot]
+  · refine (belowAllR_obs f hf rr rt ids c).trans (List.Perm.of_eq ?_)
+    apply sel_congr f sel selV rt t hsel hid
+    intro x hx
+    obtain ⟨s, hs, he⟩ := obs_partner f c x hx
+    refine ⟨s, ?_, he⟩
+    rw [hsp]
+    have : s ∈ c.splitsBelow := by cases c; simpa [T.splits, T.splitsBelow] using hs
+    simp [this]
+
+/- ## `removeRoot` on a rooted tree: what happens to the root
+
+   (`collapse_exact` already says which branches remain; these say what the ROOT looks like.)  The
+   root node is never removed: contracting one of its two branches hands the children of the node
+   below to the root, appended at the end of its neighbour slice.  The tree stays rooted only if that
+   node had a single child; contracting both branches leaves the root with all grand-children. -/
+
+theorem removeRoot_first_branch (rt : Bool) (d : NodeD) (p : Nat) (e1 e2 : EdgeD) (c1 c2 : T)
+    (hid : uniqueIds (.node d p [(e1, c1), (e2, c2)]) = true) (hinner : c1.isLeaf = false) :
+    contractT true rt e1.id true (.node d p [(e1, c1), (e2, c2)]) =
+        .node d (p - nNone ([none, some (e2, c2)].take p)) ((e2, c2) :: c1.kids)
+    ∧ (contractT true rt e1.id true (.node d p [(e1, c1), (e2, c2)])).rooted = (c1.kids.length == 1) := by
+  have h := root_first_contracted rt d p e1 e2 c1 c2 hid hinner
+  refine ⟨h, ?_⟩
+  rw [h]; simp [T.rooted]
+
+theorem removeRoot_second_branch (rt : Bool) (d : NodeD) (p : Nat) (e1 e2 : EdgeD) (c1 c2 : T)
+    (hid : uniqueIds (.node d p [(e1, c1), (e2, c2)]) = true) (hinner : c2.isLeaf = false) :
+    contractT true rt e2.id true (.node d p [(e1, c1), (e2, c2)]) =
+        .node d (p - nNone ([some (e1, c1), none].take p)) ((e1, c1) :: c2.kids)
+    ∧ (contractT true rt e2.id true (.node d p [(e1, c1), (e2, c2)])).rooted = (c2.kids.length == 1) := by
+  have h := root_second_contracted rt d p e1 e2 c1 c2 hid hinner
+  refine ⟨h, ?_⟩
+  rw [h]; simp [T.rooted]
+
+theorem removeRoot_both_branches (rt : Bool) (d : NodeD) (p : Nat) (e1 e2 : EdgeD) (c1 c2 : T)
+    (hid : uniqueIds (.node d p [(e1, c1), (e2, c2)]) = true) (h1 : c1.isLeaf = false) (h2 : c2.isLeaf = false) :
+    ∃ p', removeEdges true rt [e1.id, e2.id] (.node d p [(e1, c1), (e2, c2)]) = .node d p' (c1.kids ++ c2.kids) :=
+  root_both_contracted rt d p e1 e2 c1 c2 hid h1 h2
+
 /- ## the Spec oracle follows
 
    `collapseOK` (Spec/C07.lean) is the Bool predicate the driver evaluates on the trees the
@@ -384,6 +526,31 @@ theorem collapse_rooted_oracle (crit : Crit) (sel : SplitE → Bool) (rt : Bool)
   · rw [holds_rootEnt, ← hsel _ hm1]
   · rw [holds_rootEnt, ← hsel _ hm2]
 
+/-- … and on EVERY tree whose root is not a tip, without `removeRoot` — rooted or not, with or without
+    single-child inner nodes: the branches the code protects (an end point with two neighbours) are
+    the OPTIONAL part of the oracle; everything else is exact. -/
+theorem collapse_general_oracle (crit : Crit) (sel : SplitE → Bool) (rt : Bool) (t : T)
+    (hsel : ∀ s ∈ t.splits, sel s = critV crit (FF t.tipNames s.below, s.e, s.tip))
+    (hid : uniqueIds t = true) (h1 : t.kids.length ≠ 1) :
+    collapseOK crit rt t (collapse sel false rt t) = true := by
+  apply collapseOK_of_obsG crit rt t _ h1
+  · have := removeEdges_kids_len false rt ((t.splits.filter sel).map (·.e.id)) t
+    have h0 : t.kids.length = 0 → (collapse sel false rt t).kids.length = 0 := by
+      intro h
+      have hk : t.kids = [] := List.length_eq_zero_iff.mp h
+      have : (collapse sel false rt t).leaves.Perm t.leaves := (collapse_tips sel false rt t).1
+      cases t with
+      | node d p k =>
+        simp only [T.kids_node] at hk; subst hk
+        simp [collapse, T.splits, splitsL, removeEdges]
+    unfold collapse at this ⊢
+    by_cases hz : t.kids.length = 0
+    · have := h0 hz; unfold collapse at this; omega
+    · omega
+  · exact removeEdges_tipNames false rt _ t
+  · exact (removeEdges_leaves false rt _ t).2
+  · exact collapse_exact_general (FF t.tipNames) (FF_permInv _) sel (critV crit) rt t hsel hid h1
+
 /- ## Resolve -/
 
 /-- ★ `resolve_refines`.  For EVERY list of draws on which the model of `Resolve` is defined
@@ -462,6 +629,12 @@ theorem resolve_usplitsAll (t t' : T) (draws : List Nat) (h : resolve t draws = 
         rw [(hnew y hy).1]
         exact Or.inr (Rat.le_refl)
 
+/-- Resolve on ARBITRARY trees, single-child inner nodes included (where the result cannot be binary):
+    for every draw list, no node is left with more than three neighbours.  (Single-child nodes have two
+    neighbours and are never touched; `resolve_refines` gives the rest.) -/
+theorem resolve_max_degree (t t' : T) (draws : List Nat) (h : resolve t draws = some t') : deg3 t' = true :=
+  resolve_deg3 t t' draws h
+
 /-- The Spec oracle `resolveOK` (the Bool predicate the driver evaluates on the implementation's
     output) holds of the model's output, for every tree whose root is not a tip and every draw
     list on which the model is defined. -/
@@ -474,7 +647,7 @@ theorem resolve_oracle (t t' : T) (draws : List Nat) (h : resolve t draws = some
     have : (t'.kids.length == 1) = true := by simp [hh]
     rw [hone] at this
     exact h1 (by simpa using this)
-  exact resolveOK_of_obs t t' h1 h1' (resolve_tipNames t t' draws h) hd ex hnew hp hdist hbin
+  exact resolveOK_of_obs t t' h1 h1' (resolve_tipNames t t' draws h) hd ex hnew hp hdist hbin (resolve_deg3 t t' draws h)
 
 /-- The draw protocol.  The model of `Resolve` is defined EXACTLY on the draw lists that answer the
     `Intn` calls of the draw script of the tree (post-order, `Perm(l)` = `Intn(1)…Intn(l)` at every
@@ -495,6 +668,47 @@ theorem resolve_total (t : T) (draws : List Nat) :
     unfold resolve
     rw [List.append_nil] at ht
     rw [ht]
+
+/- ## the commands (Model/C07Cmd.lean) -/
+
+/-- `gotree collapse length`: the command writes, in order, the collapsed version of every tree before
+    the first record in error, and succeeds iff no record is in error; `-l` omitted means 0. -/
+theorem cmdLength_spec (fl : CmdFlags) (recs : List Rec) :
+    cmdLength fl recs = ((goodRecs recs).map (collapseLen (fl.l.getD 0) fl.root fl.tips), !hasErrRec recs) :=
+  runEach_total _ recs
+
+/-- `gotree collapse support`: likewise (`-s` omitted means 0; tip branches are never touched). -/
+theorem cmdSupport_spec (fl : CmdFlags) (recs : List Rec) :
+    cmdSupport fl recs = ((goodRecs recs).map (collapseSup (fl.s.getD 0) fl.root), !hasErrRec recs) :=
+  runEach_total _ recs
+
+/-- `gotree collapse depth` on trees that can be indexed (unique tip names, at least one tip): the
+    command re-indexes each tree, so it is the collapse by the FRESH topological depths, whatever was
+    stored on the branches before (`collapseDepthStored_fresh`, `collapseDepth_defined`). -/
+theorem cmdDepth_spec (fl : CmdFlags) (recs : List Rec)
+    (hok : ∀ t ∈ goodRecs recs, reinitErr t = false) :
+    cmdDepth fl recs =
+      ((goodRecs recs).map (fun t => collapse (selDepth t.tipNames.length (fl.mn.getD 0) (fl.mx.getD 0)) fl.root fl.tips t),
+        !hasErrRec recs) := by
+  induction recs with
+  | nil => rfl
+  | cons r rs ih =>
+    cases r with
+    | none => rfl
+    | some t =>
+      have ht : reinitErr t = false := hok t (by simp [goodRecs])
+      have ih' := ih (fun u hu => hok u (by simp [goodRecs, hu]))
+      unfold cmdDepth at ih' ⊢
+      simp only [collapseDepth_defined, Option.getD_some] at ih'
+      simp only [runEach, ht, Bool.false_eq_true, if_false, collapseDepth_defined, Option.getD_some,
+        goodRecs, List.map_cons, hasErrRec]
+      rw [ih']
+
+/-- `gotree resolve`: defined on the draws that follow the scripts of the successive trees on ONE
+    stream; it writes one tree per record before the first in error. -/
+theorem cmdResolve_total (recs : List Rec) (draws : List Nat) (h : okDraws (cmdResolveScript recs) draws = true) :
+    ∃ o, cmdResolve recs draws = some o ∧ o.1.length = (goodRecs recs).length ∧ o.2 = !hasErrRec recs :=
+  cmdResolve_ok recs draws h
 
 /- ## fidelity of the model of `rand.Perm` / `togroup` (not needed by the theorems above) -/
 
@@ -578,6 +792,31 @@ theorem roottip_tip_lost :
     (collapsePinned (selDepth 4 1 1) false false exT).tipNames = ["a", "b", "c"] ∧
     (collapseLen 1 false false exT).tipNames = ["r", "a", "b", "c"] ∧
     (collapseLen 1 false true exT).edges.map (·.len) = [0, 0, 2, 2] := by decide
+
+/-- stale sizes: the stored sizes of `exU` say that branch 0 has one taxon below (as if `b` had been
+    grafted after the indexing); `CollapseTopoDepth(1,1)` then removes that INNER branch of depth 2,
+    and with no sizes at all (never indexed) it fails and removes nothing. -/
+theorem stale_sizes_differ :
+    ((collapseDepthStored ((freshSizes exU).map fun x => if x.1 == 0 then (0, 5, 1) else x) 1 1 false false exU).map
+        fun t => t.splits.map (·.e.id)) = some [3, 4, 5, 6, 7, 1, 2] ∧
+    ((collapseDepth 1 1 false false exU).map fun t => t.splits.map (·.e.id)) = some [0, 1, 2, 3, 4, 5, 6, 7] ∧
+    collapseDepthStored [] 1 1 false false exU = none := by decide
+
+/-- `(((a:1,b:1):1):1,c:1,d:1);` — a single-child inner node (branch 1 below branch 0) -/
+def exSg : T :=
+  .node ⟨"", []⟩ 0 [
+    (⟨1, NIL, NIL, [], 0⟩, .node ⟨"", []⟩ 0 [
+      (⟨1, NIL, NIL, [], 1⟩, .node ⟨"", []⟩ 0 [(⟨1, NIL, NIL, [], 2⟩, T.leaf "a"), (⟨1, NIL, NIL, [], 3⟩, T.leaf "b")])]),
+    (⟨1, NIL, NIL, [], 4⟩, T.leaf "c"), (⟨1, NIL, NIL, [], 5⟩, T.leaf "d")]
+
+/-- NEGATIVE, about the PINNED variant (the code before fix 82ce8b8, whose "root branch" test was "an
+    end point has exactly two neighbours"): a single-child inner node protected both its branches, so
+    `collapse length -l 1` left `exSg` unchanged although its two inner branches meet the criterion.
+    The current model removes both. -/
+theorem single_child_protected_pinned :
+    (collapsePinned (selLen 1) false false exSg).splits.map (·.e.id) = [0, 1, 2, 3, 4, 5] ∧
+    (collapseLen 1 false false exSg).splits.map (·.e.id) = [4, 5, 2, 3] ∧
+    uniqueIds exSg = true ∧ exSg.noSingle = false := by decide
 
 /-- `resolve` is defined on the draws it asks for (here: a star with 6 tips, `Perm(6)`), and the
     result is binary with 3 added branches -/
